@@ -92,6 +92,11 @@ func fixedType(t *Type) *Type {
 	}
 	t2 := *t
 	t2.Fixed = true
+	if t.Sub != nil {
+		// also the element type: arr[0], m.key and loop variables over a
+		// variable are as fixed as the variable itself
+		t2.Sub = fixedType(t.Sub)
+	}
 	return &t2
 }
 
